@@ -624,7 +624,8 @@ def index_lemmas(text):
         cb = match_close(text, ob)
         head = text[st:ob]
         nm = re.search(r'\bfn\s+([A-Za-z_][A-Za-z0-9_]*)', head)
-        res.append(dict(id='lemma::' + (nm.group(1) if nm else '?'), tags=tags, mode='lemma',
+        lname = nm.group(1) if nm else norm(head)[:120]
+        res.append(dict(id='lemma::' + lname, tags=tags, mode='lemma',
                         out_lines=[line_of(text, st), line_of(text, cb)], rules=[], contract=[]))
     return res
 
